@@ -25,6 +25,10 @@ class Sym(str):
     """A symbolic (non-literal) value named by a rule, e.g. Sym("BASE"); compares equal to the plain string."""
 
 
+class Tup(tuple):
+    """A tuple *value* (return a, b) - as opposed to the tagged tuples ("cat", ...), ("from", ...) that describe a value."""
+
+
 UNKNOWN = Sym("<unknown>")
 Atom = Callable[[ast.AST, frozenset], "bool | None"]
 
@@ -49,7 +53,7 @@ def bool_eval(expr: ast.AST, atom) -> bool | None:
 
 class Decider:
     def __init__(self, prog: Program, atom: Atom, max_depth: int = 3, value_leaf=None, symbolic: set[str] | None = None,
-                 track_aug: bool = True) -> None:
+                 track_aug: bool = True, derive: bool = False, opaque: set[str] | None = None) -> None:
         self.prog = prog
         self.atom = atom
         self.max_depth = max_depth
@@ -58,6 +62,10 @@ class Decider:
         self._cur: tuple | None = None
         # x += v: concatenate onto the tracked value (True) or keep the base value and only report the event (False)
         self.track_aug = track_aug
+        # unknown operations evaluate to ("from", {named values they were computed from}) instead of UNKNOWN
+        self.derive = derive
+        # qualnames of package functions that are not entered (their result is unknown / derived from the arguments)
+        self.opaque = opaque or set()
         # value_leaf(fi, expr, aliases) -> hashable | None: lets a rule name non-constant results (e.g. "element.tight")
         self.value_leaf = value_leaf
 
@@ -117,13 +125,34 @@ class Decider:
                 return frozenset(("call", t[0].qual, x) for x in self.ev(fi, e.args[0], env, benv, aliases, depth))
         if isinstance(e, ast.Call) and depth < self.max_depth:
             t = self.prog.resolve_call(fi, e)
-            if isinstance(t, list) and len(t) == 1 and not isinstance(t[0].node, ast.Lambda):
+            if isinstance(t, list) and len(t) == 1 and not isinstance(t[0].node, ast.Lambda) and t[0].qual not in self.opaque:
                 callee = t[0]
                 al = self._bind_aliases(fi, callee, e, aliases)
-                return self.func_outcomes(callee, al, depth + 1)
+                res = self.func_outcomes(callee, al, depth + 1)
+                if not (self.derive and any(v == UNKNOWN for v in res)):
+                    return res
+                # (derive mode) the helper could not be evaluated: fall through to "computed from its arguments"
         b = bool_eval(e, self._atom(benv, aliases))
         if b is not None:
             return frozenset({b})
+        if self.derive and isinstance(e, (ast.Call, ast.BinOp, ast.Attribute, ast.Subscript, ast.JoinedStr)):
+            # an operation this evaluator does not model: its result is "something computed from" the named values that
+            # enter it (receiver, arguments, operands)
+            roots: set = set()
+            subs: list[ast.AST] = []
+            if isinstance(e, ast.Call):
+                subs = list(e.args) + [k.value for k in e.keywords] + ([e.func.value] if isinstance(e.func, ast.Attribute) else [])
+            elif isinstance(e, ast.BinOp):
+                subs = [e.left, e.right]
+            elif isinstance(e, (ast.Attribute, ast.Subscript)):
+                subs = [e.value]
+            elif isinstance(e, ast.JoinedStr):
+                subs = [v.value for v in e.values if isinstance(v, ast.FormattedValue)]
+            for x in subs:
+                for v in self.ev(fi, x, env, benv, aliases, depth):
+                    roots |= roots_of(v)
+            if roots:
+                return frozenset({("from", frozenset(roots))})
         return frozenset({UNKNOWN})
 
     def _atom(self, benv: dict, aliases: frozenset):
@@ -208,7 +237,7 @@ class Decider:
                             whole = self.ev(fi, a.value, env, benv, aliases, depth)
                             vals = []
                             for i in range(len(tg.elts)):
-                                vals.append(frozenset(w[i] if isinstance(w, tuple) and len(w) == len(tg.elts) else UNKNOWN for w in whole))
+                                vals.append(frozenset(w[i] if isinstance(w, Tup) and len(w) == len(tg.elts) else UNKNOWN for w in whole))
                         # components that are not understood stay unbound (a rule's value_leaf may still name them)
                         env = {k: v for k, v in env.items() if k not in {x.id for x in tg.elts}}
                         env.update({x.id: v for x, v in zip(tg.elts, vals) if v != frozenset({UNKNOWN})})
@@ -234,7 +263,7 @@ class Decider:
                     if isinstance(v, ast.Tuple):
                         parts = [self.ev(fi, x, env, benv, aliases, depth) for x in v.elts]
                         import itertools
-                        val = frozenset(tuple(c) for c in itertools.islice(itertools.product(*parts), 64))
+                        val = frozenset(Tup(c) for c in itertools.islice(itertools.product(*parts), 64))
                     else:
                         val = self.ev(fi, v, env, benv, aliases, depth)
                     results.append((n, env, benv, outs + (val,)))
@@ -267,6 +296,19 @@ class Decider:
             else:
                 out.add(UNKNOWN)
         return frozenset(out)
+
+
+def roots_of(v) -> set:
+    """The symbolic names (Sym) a value was built from."""
+    if isinstance(v, Sym) and v != UNKNOWN:
+        return {v}
+    if isinstance(v, tuple) and v and v[0] == "cat":
+        return roots_of(v[1]) | roots_of(v[2])
+    if isinstance(v, tuple) and v and v[0] == "from":
+        return set(v[1])
+    if isinstance(v, tuple) and v and v[0] == "call":
+        return roots_of(v[2])
+    return set()
 
 
 def _cat(a, b):
